@@ -270,6 +270,49 @@ def epilogue(chk, b, ammo, T_, VU, vu, key0, sig, every=1, start=0, fire_ctx=Non
             chk.violation("C17.LaunchVelocity", {**k, "mode": "implied"}, {"beh": b, "got": o2[1], "want": float(want), "air_c": air_c})
 
 
+def constructor_path(chk):
+    """The modifier handed to the CONSTRUCTOR (number types, signs, magnitudes up to several hundred percent per 15 C) means what
+    the statement says - velocity = stated x (1 + modifier x (T - T0) / 15 C) - and an ammunition REBUILT from its own fields (after a
+    calibration from two measurements one degree apart, which gives a modifier above 1) is the same ammunition."""
+    import dataclasses
+    m = impl.pb()
+    U = m.Unit
+    dm = m.DragModel(0.3, m.TableG7)
+    for mod in (0, 0.01, 0.5, 1, 1.0, 1.5, -2.0, 3, -0.999, 25.0, 1e-9):
+        ammo = m.Ammo(dm, U.MPS(800), U.Celsius(15), mod, True)
+        for T in (-15.0, 0.0, 15.0, 16.0, 30.0):
+            want = Fraction(800) * (1 + Fraction(mod) * Fraction(T - 15.0) / 15)
+            if want <= 0:
+                continue
+            for tq in (U.Celsius(T), U.Fahrenheit(T * 9 / 5 + 32)):
+                o = impl.outcome(lambda: ammo.get_velocity_for_temp(tq) >> U.MPS)
+                chk.count(1, ("ctor-modifier", mod, T))
+                chk.stratum("modifier_given_to_the_constructor" + ("_above_one" if abs(mod) > 1 else ""))
+                if o[0] != "ok" or not close(o[1], want):
+                    chk.violation("C17.WrongVelocity", {"source": "constructor", "modifier": float(mod), "Tq": T, "flag": True},
+                                  {"got": o[1], "want": float(want), "modifier_type": type(mod).__name__})
+    a = m.Ammo(dm, U.MPS(800), U.Celsius(15))
+    a.calc_powder_sens(U.MPS(900), U.Celsius(16))
+    a.use_powder_sensitivity = True
+    copies = {"constructor from its own fields": lambda: m.Ammo(a.dm, a.mv, a.powder_temp, a.temp_modifier, a.use_powder_sensitivity),
+              "dataclasses.replace": lambda: dataclasses.replace(a)}
+    for how, mk in copies.items():
+        o = impl.outcome(mk)
+        chk.count(1, ("rebuilt", how))
+        chk.stratum("calibrated_ammunition_rebuilt_from_its_fields")
+        if o[0] != "ok":
+            if how == "dataclasses.replace" and not dataclasses.is_dataclass(a):
+                continue
+            chk.violation("C17.RebuildRaised", {"source": "rebuilt", "how": how}, {"exc": o[1]})
+            continue
+        for T in (15.0, 16.0, 20.0, 0.0):
+            g1, g2 = a.get_velocity_for_temp(U.Celsius(T)) >> U.MPS, o[1].get_velocity_for_temp(U.Celsius(T)) >> U.MPS
+            if g1 != g2:
+                chk.violation("C17.RebuiltAmmunitionDiffers", {"source": "rebuilt", "how": how, "Tq": T}, {"original": g1, "rebuilt": g2, "modifier": a.temp_modifier})
+    if not close(a.get_velocity_for_temp(U.Celsius(16)) >> U.MPS, Fraction(900)):
+        chk.violation("C17.WrongVelocity", {"source": "rebuilt", "how": "original", "Tq": 16.0, "flag": True}, {"got": a.get_velocity_for_temp(U.Celsius(16)) >> U.MPS, "want": 900.0})
+
+
 def run(chk: core.Check, replay_path=None, **_):
     core.use_repo(hooks=False)
     core.reset_world()
@@ -300,11 +343,13 @@ def run(chk: core.Check, replay_path=None, **_):
         replay(chk, sim.out("BEH"), rng, fire_every=50)
         chk.traces += len(sim.out("BEH"))
     core.reset_world()
+    constructor_path(chk)
+    core.reset_world()
     chk.traces += len(behs)
     for b in behs[:: max(1, len(behs) // 4)][:4]:
         chk.sample(b)
     chk.require_strata(["epilogue_switched_on", "fire_held_shot_after_every_operation", "display_and_preferences_perturbed", "bare_numbers", "calibration_rejected", "calibrated_faster", "calibrated_slower", "calibrated_warmer", "calibrated_colder",
-                        "query_enabled", "query_disabled", "fire_air", "fire_powder_t", "fire_implied_powder_temperature", "bare_atmosphere_fired_under_other_preferences", "bare_query_equal_to_the_baseline_number_in_another_unit"])
+                        "query_enabled", "query_disabled", "fire_air", "fire_powder_t", "fire_implied_powder_temperature", "bare_atmosphere_fired_under_other_preferences", "bare_query_equal_to_the_baseline_number_in_another_unit", "modifier_given_to_the_constructor_above_one", "calibrated_ammunition_rebuilt_from_its_fields"])
     chk.rule.append("every behaviour of %d operations of the Powder state machine over v in %s m/s, T in %s C (TLC Gen_Powder), "
                     "temperatures/velocities passed in rotating units; non-trivial = an enabled query whose answer differs "
                     "from the stated velocity" % (maxops, vels, temps))
